@@ -3,6 +3,8 @@ package rules
 import (
 	"fmt"
 	"go/token"
+	"go/types"
+	"strings"
 
 	"dtnverif/core"
 
@@ -446,6 +448,113 @@ func C16(p *core.Program, r *core.Report) {
 		}
 		r.Check(n > 0, "listing/"+fname(fn)+"/collects", "the listing collects elements", p.Pos(fn.Pos()), "", "no append found")
 	}
+
+	checkStoppableGoroutines(p, r, claPkg)
+	for _, sub := range []string{"pkg/cla/mtcp", "pkg/cla/tcpclv4", "pkg/cla/bbc"} {
+		checkStoppableGoroutines(p, r, sub)
+	}
+}
+
+// checkStoppableGoroutines: a goroutine that is stopped through a
+// close-signalled channel (`case <-x.stopSyn` in its loop, the stopper then
+// waits for an acknowledgement) must be able to see the signal wherever it can
+// block: every channel send it performs — directly or in a small helper of the
+// package — is a case of a select that also receives from that stop channel.
+// Otherwise the stopper waits for ever whenever nobody takes the value (e.g.
+// the consumer of the status channel is the one calling Close).
+func checkStoppableGoroutines(p *core.Program, r *core.Report, pkgRel string) {
+	pkg := p.Pkg(pkgRel)
+	// stop channels: struct fields of channel type that some function of the package closes
+	closed := map[string]bool{}
+	var fns []*ssa.Function
+	for _, fn := range p.RepoFuncs() {
+		if fn.Pkg != pkg {
+			continue
+		}
+		fns = append(fns, fn)
+		core.EachInstr(fn, func(in ssa.Instruction) {
+			c, ok := in.(*ssa.Call)
+			if !ok {
+				return
+			}
+			if b, ok := c.Common().Value.(*ssa.Builtin); ok && b.Name() == "close" {
+				if f := ownChanField(c.Common().Args[0]); f != "" {
+					closed[f] = true
+				}
+			}
+		})
+	}
+	stopRecv := func(sel *ssa.Select) string {
+		for _, st := range sel.States {
+			if st.Dir == types.RecvOnly {
+				if f := ownChanField(st.Chan); f != "" && closed[f] && isSignalChan(st.Chan) {
+					return f
+				}
+			}
+		}
+		return ""
+	}
+	n := 0
+	for _, fn := range fns {
+		stop := ""
+		core.EachInstr(fn, func(in ssa.Instruction) {
+			if sel, ok := in.(*ssa.Select); ok && sel.Blocking && core.InLoop(sel.Block()) {
+				if f := stopRecv(sel); f != "" {
+					stop = f
+				}
+			}
+		})
+		if stop == "" {
+			continue
+		}
+		n++
+		var bad []string
+		var scan func(f *ssa.Function, depth int)
+		scan = func(f *ssa.Function, depth int) {
+			core.EachInstr(f, func(in ssa.Instruction) {
+				switch x := in.(type) {
+				case *ssa.Send:
+					bad = append(bad, "send at "+p.Pos(x.Pos()))
+				case *ssa.Select:
+					hasSend := false
+					for _, st := range x.States {
+						if st.Dir == types.SendOnly {
+							hasSend = true
+						}
+					}
+					if hasSend && x.Blocking && stopRecv(x) == "" {
+						bad = append(bad, "select without the stop channel at "+p.Pos(x.Pos()))
+					}
+				case *ssa.Call:
+					if cal := x.Common().StaticCallee(); depth < 1 && cal != nil && cal.Pkg == pkg && cal.Blocks != nil && len(cal.Blocks) <= 6 && cal.Signature.Recv() != nil && fn.Signature.Recv() != nil && types.Identical(cal.Signature.Recv().Type(), fn.Signature.Recv().Type()) {
+						scan(cal, depth+1)
+					}
+				}
+			})
+		}
+		scan(fn, 0)
+		r.Check(len(bad) == 0, "stoppable/"+fname(fn)+"/sends-see-stop", "a goroutine that is stopped through the close-signalled channel "+stop+" sends on channels only inside a select that also receives from that channel: the party that asked it to stop may be the very consumer of the value", p.Pos(fn.Pos()), "", strings.Join(bad, "; ")+": if nobody takes the value the goroutine never sees the stop signal and Close/deactivate waits for its acknowledgement for ever")
+	}
+	r.Count("stoppable goroutine loops in "+pkgRel, n)
+	if pkgRel == claPkg {
+		r.Min("stoppable goroutine loops in "+pkgRel, 2)
+	}
+}
+
+// ownChanField: v is a load of a channel-typed struct field; its name.
+func ownChanField(v ssa.Value) string {
+	u, ok := v.(*ssa.UnOp)
+	if !ok || u.Op != token.MUL {
+		return ""
+	}
+	if _, isChan := u.Type().Underlying().(*types.Chan); !isChan {
+		return ""
+	}
+	_, field, ok := core.FieldOwner(u.X)
+	if !ok {
+		return ""
+	}
+	return field
 }
 
 func isTTLLoad(v ssa.Value) bool {
@@ -544,4 +653,14 @@ func nonNegativeDepth(p *core.Program, v ssa.Value, fn *ssa.Function, depth int)
 		return callers > 0
 	}
 	return false
+}
+
+// isSignalChan: chan struct{} — carries no data, used only to be closed.
+func isSignalChan(v ssa.Value) bool {
+	ch, ok := v.Type().Underlying().(*types.Chan)
+	if !ok {
+		return false
+	}
+	st, ok := ch.Elem().Underlying().(*types.Struct)
+	return ok && st.NumFields() == 0
 }
